@@ -336,7 +336,9 @@ def run_case(inp):
             native = [[Fraction(0) if m[y][x] else native[y][x] for x in range(len(m[0]))] for y in range(len(m))]
             res = call_res(kernel.convolved_array_from, array=arr)
         out = ("ok", [frac(x) for x in np.array(res[1].slim)]) if res[0] == "ok" else res
-        return dict(base, coq=f"(KWhole {cmask(m)} {cqm(native)} {cqm(K)} {cres(out, cqv)})", out=str(out)[:300])
+        probs = result_problems(res[1], m, "whole-frame convolution") if res[0] == "ok" else []
+        return dict(base, coq=f"(KWhole {cmask(m)} {cqm(native)} {cqm(K)} {cres(out, cqv)})", out=str(out)[:300],
+                    py_ok=(False if probs else None), detail={"problems": probs})
     # decoy first: another mask (rotated by 180 degrees: same shape, same pixel count, footprints still inside) and another kernel
     # of the same shape go through the library before the observed objects, so that state remembered from an earlier
     # construction (a cache keyed by shapes / counts) shows up in this very input and the replay is self-contained
@@ -357,11 +359,15 @@ def run_case(inp):
         res = c.convolve_image(image=aa.Array2D(values=fl(img), mask=mask),
                                blurring_image=aa.Array2D(values=fl(bimg), mask=bm) if nb else aa.Array2D(values=np.zeros(0), mask=bm))
         out = [frac(x) for x in np.array(res.slim)]
-        return dict(base, coq=f"(KConvolve {cmask(m)} {cqm(K)} {cqv(img)} {cqv(bimg)} {cqv(out)})", out=[str(x) for x in out])
+        probs = result_problems(res, m, "convolve_image")
+        return dict(base, coq=f"(KConvolve {cmask(m)} {cqm(K)} {cqv(img)} {cqv(bimg)} {cqv(out)})", out=[str(x) for x in out],
+                    py_ok=(False if probs else None), detail={"problems": probs})
     if op == "noblur":
         res = c.convolve_image_no_blurring(image=aa.Array2D(values=fl(img), mask=mask))
         out = [frac(x) for x in np.array(res.slim)]
-        return dict(base, coq=f"(KNoBlur {cmask(m)} {cqm(K)} {cqv(img)} {cqv(out)})", out=[str(x) for x in out])
+        probs = result_problems(res, m, "convolve_image_no_blurring")
+        return dict(base, coq=f"(KNoBlur {cmask(m)} {cqm(K)} {cqv(img)} {cqv(out)})", out=[str(x) for x in out],
+                    py_ok=(False if probs else None), detail={"problems": probs})
     if op == "matrix":
         P = rng.randint(1, 4)
         M = [[v * vs for v in rand_vals(rng, P, inp["sparse"], ints)] for _ in range(nun)]
